@@ -28,23 +28,40 @@ def run_variant(variant, y, nodata, prm):
     """-> (out int16 array, lopt float or None). prm: dict(lam, p, llas (array), lc)."""
     y = np.asarray(y)
     nd = float(nodata)
+    out = _run_variant(variant, y, nd, prm)
+    return out
+
+
+def _check_unmodified(what, a, keep):
+    if not np.array_equal(a, keep, equal_nan=True):
+        bad = int(np.nonzero(~((a == keep) | (np.isnan(a) & np.isnan(keep))))[0][0])
+        raise Violation("%s modified its input series (cell %d: %r -> %r): a later evaluation of the same buffer sees different data" % (
+            what, bad, float(keep[bad]), float(a[bad])), signature="%s modified input" % what)
+
+
+def _run_variant(variant, y, nd, prm):
+    """Every kernel is handed an array of exactly its signature dtype (so no hidden copy is made by the gufunc machinery)
+    and that array must come back unchanged."""
+    buf = np.array(y, dtype="int16" if variant == "optvplc" else "float64", copy=True)
+    keep = buf.copy()
     if variant == "gu":
-        return call("ws2dgu", ops.ws2dgu, y.astype("float64"), float(prm["lam"]), nd), None
-    if variant == "pgu":
-        return call("ws2dpgu", ops.ws2dpgu, y.astype("float64"), float(prm["lam"]), nd, float(prm["p"])), None
-    if variant == "optv":
-        o, l = call("ws2doptv", ops.ws2doptv, y.astype("float64"), nd, prm["llas"])
+        o, l = call("ws2dgu", ops.ws2dgu, buf, float(prm["lam"]), nd), None
+    elif variant == "pgu":
+        o, l = call("ws2dpgu", ops.ws2dpgu, buf, float(prm["lam"]), nd, float(prm["p"])), None
+    elif variant == "optv":
+        o, l = call("ws2doptv", ops.ws2doptv, buf, nd, prm["llas"])
     elif variant == "optvp":
-        o, l = call("ws2doptvp", ops.ws2doptvp, y.astype("float64"), nd, float(prm["p"]), prm["llas"])
+        o, l = call("ws2doptvp", ops.ws2doptvp, buf, nd, float(prm["p"]), prm["llas"])
     elif variant == "optvplc":
-        o, l = call("ws2doptvplc", ops.ws2doptvplc, y.astype("int16"), nd, float(prm["p"]), float(prm["lc"]))
+        o, l = call("ws2doptvplc", ops.ws2doptvplc, buf, nd, float(prm["p"]), float(prm["lc"]))
     elif variant in ("wcv", "wcv_r"):
-        o, l = call("ws2dwcv", ops.ws2dwcv, y.astype("float64"), nd, prm["llas"], variant == "wcv_r")
+        o, l = call("ws2dwcv", ops.ws2dwcv, buf, nd, prm["llas"], variant == "wcv_r")
     elif variant in ("wcvp", "wcvp_r"):
-        o, l = call("ws2dwcvp", ops.ws2dwcvp, y.astype("float64"), nd, float(prm["p"]), prm["llas"], variant == "wcvp_r")
+        o, l = call("ws2dwcvp", ops.ws2dwcvp, buf, nd, float(prm["p"]), prm["llas"], variant == "wcvp_r")
     else:
         raise ValueError(variant)
-    return o, float(l)
+    _check_unmodified(variant, buf.astype("float64"), keep.astype("float64"))
+    return o, (None if l is None else float(l))
 
 
 def grid_for(variant, prm):
@@ -125,3 +142,37 @@ def whittaker_support(out, y, valid, lam, wmax=1.0):
         support += ok
     miss = np.abs(dtd[~v]).max() - 8.0 - 1e-6 if (~v).any() else -np.inf
     return support, miss
+
+
+def unrounded_via_twin(variant, y, nodata, prm):
+    """The curve before rounding, obtained by running the kernel's own source in the interpreter (its np.round call is recorded).
+    Used only to adjudicate unit differences between two runs of the compiled kernel (is the curve on a rounding tie there?)."""
+    from . import twins
+
+    kern = {"gu": ops.ws2dgu, "pgu": ops.ws2dpgu, "optv": ops.ws2doptv, "optvp": ops.ws2doptvp, "optvplc": ops.ws2doptvplc,
+            "wcv": ops.ws2dwcv, "wcv_r": ops.ws2dwcv, "wcvp": ops.ws2dwcvp, "wcvp_r": ops.ws2dwcvp}[variant]
+    t = twins.twin(kern)
+    yy = np.array(y, dtype="float64")
+    n = yy.size
+    out = np.zeros(n, dtype="int16")
+    lo = np.zeros(1)
+    nd = float(nodata)
+    twins.PROXY.rounded.clear()
+    with np.errstate(all="ignore"):
+        if variant == "gu":
+            t(yy, float(prm["lam"]), nd, out)
+        elif variant == "pgu":
+            t(yy, float(prm["lam"]), nd, float(prm["p"]), out)
+        elif variant == "optv":
+            t(yy, nd, prm["llas"], out, lo)
+        elif variant == "optvp":
+            t(yy, nd, float(prm["p"]), prm["llas"], out, lo)
+        elif variant == "optvplc":
+            t(yy.astype("int64"), nd, float(prm["p"]), float(prm["lc"]), out, lo)
+        elif variant in ("wcv", "wcv_r"):
+            t(yy, nd, prm["llas"], variant == "wcv_r", out, lo)
+        else:
+            t(yy, nd, float(prm["p"]), prm["llas"], variant == "wcvp_r", out, lo)
+    if not twins.PROXY.rounded:
+        return None
+    return np.asarray(twins.PROXY.rounded[-1], dtype=np.float64)
